@@ -39,6 +39,16 @@ def base_programs(ctx, n):
             f = ('del', gen.dformula(rng, atoms, rng.randint(1, 2), 2))
             if f[1][0] not in ('dia', 'box'):
                 f = ('del', ('box', ('star', ('skip',)), f[1]))
+        # half of the time the observed formula is RELATED to a formula the base program already mentions (same formula, a
+        # sub-formula, the weak/strong or dual sibling, the formula reached late through a past operator)
+        mentioned = [l[1] for r in p for l in r['body'] if l[1][0] in ('tel', 'del')]
+        if mentioned and rng.random() < 0.6:
+            kind, g = rng.choice(mentioned)
+            f = (kind, gen.related(rng, g, kind))
+        elif rng.random() < 0.3 and f[0] == 'tel':
+            # ... or the base program gets a constraint that reaches a related formula late
+            g = gen.related(rng, f[1], 'tel')
+            p = p + [{'part': rng.choice(['dynamic', 'always', 'final']), 'head': ('cons',), 'body': [(rng.choice('nm'), ('tel', rng.choice([('initially', g), ('prev', None, g), ('since', None, g)])))]}]
         out.append((p, f, rng.choice(gen.PARTS)))
     return out
 
